@@ -20,7 +20,7 @@ ASSUMPTIONS = [
     "coinbase transaction and pycryptodome Keccak-256 (none of them the code under test's)",
 ]
 REQUIRED_LABELS = {t: ["advance", "ancestor", "asked-brothers>=2", "multi-chunk-header",
-                       "stop-early", "stop-early-partial", "history", "interlude", "same-hash-other-coinbase", "final:partial", "final:total", "fields:17", "fields:18",
+                       "stop-early", "stop-early-partial", "history", "interlude", "trailing-bytes:advance", "trailing-bytes:ancestor", "same-hash-other-coinbase", "final:partial", "final:total", "fields:17", "fields:18",
                        "fields:19", "fields:20", "code:0", "code:1", "mm-len:55", "mm-len:56", "mm-len:255", "asked-brothers:10",
                        "mm-len:256"]
                    for t in ("quick", "thorough")}
@@ -106,6 +106,14 @@ def cases(draw, tier):
         seq.append(nxt)
     if len(seq) >= 2 and draw(st.booleans()):
         seq.append(draw(one_request(tier)))
+    if draw(st.integers(0, 7)) == 0:
+        # one block of the last request is followed by further bytes in its hex text (a second
+        # header, a stray byte): whatever the manager makes of it, it does not report success
+        # for a block the device was not given as the client wrote it
+        last = seq[-1]
+        last["trailing"] = [draw(st.integers(0, len(last["blocks"]) - 1)),
+                            draw(st.sampled_from(["00", "c0", "80", "self", "ff" * 5]))]
+        last["stop"] = None
     for c in seq[1:]:
         # other commands served by the same manager between two block requests
         c["interlude"] = draw(st.lists(st.sampled_from(mw.INTERLUDES), max_size=2))
@@ -227,12 +235,25 @@ def run_one(c, w, p):
     else:
         req = {"command": "updateAncestorBlock", "version": 5,
                "blocks": [enc(b).hex() for b in c["blocks"]]}
+    if c.get("trailing"):
+        i, extra = c["trailing"]
+        req["blocks"][i] += req["blocks"][i] if extra == "self" else extra
     mark = len(w.log)
     rep = mw.request(p, req)
     mw.check_sim(w)
     labels = [c["kind"]]
     if not isinstance(rep, dict) or type(rep.get("errorcode")) is not int:
         raise Violation("reply-shape", repr(rep)[:300])
+    if c.get("trailing"):
+        # the device (which takes a block for what its RLP prefix says, and refuses a byte more)
+        # cannot have been given this text intact: success would mean it was given another
+        if rep["errorcode"] in (0, 1):
+            got = [bytes(it["buf"]).hex() for rx_ in w.adv_rx[n_rx:] for it in rx_["blocks"]]
+            raise Violation("block-with-trailing-bytes-reported-successful", "%s: block %d of "
+                            "the request is %d hex digits long, reply %r, the device was given "
+                            "blocks of %r hex digits" % (c["kind"], i, len(req["blocks"][i]), rep,
+                                                        [len(g) for g in got]))
+        return Out(labels + ["trailing-bytes:" + c["kind"]], True)
     nsent = c["stop"] if c["stop"] else nb
     if c["stop"]:
         total = c.get("stop_final", "total") == "total" or not adv
